@@ -170,12 +170,17 @@ def build_records(pa, rng, tier, rep):
     # --- absolute (labels incl. none)
     other3 = ["delta", "epsilon", "zeta"]           # the same number of names, other names: the SAME object must cope
     rank_other = {n: i + 1 for i, n in enumerate(sorted(other3))}
+    empty3 = ["", "eta", "theta"]
+    rank_empty = {n: i + 1 for i, n in enumerate(sorted(empty3))}
     for de in des:
         d_abs = pa.AbsoluteCategoricalDissimilarity(delta_empty=de)
         add("cat", "abs", d_abs, grid_pairs(names3 + [None], sample=150, floats=6), de,
             rank=rank3, meta={"kind": "AbsoluteCategorical"})
         add("cat", "abs", d_abs, grid_pairs(other3 + [None], sample=100), de,
             rank=rank_other, meta={"kind": "AbsoluteCategorical (same object, other category names)"})
+        # the empty string is a legal category name, not "no category": it differs from an unlabelled unit like any other name
+        add("cat", "abs", d_abs, grid_pairs(empty3 + [None], sample=100), de,
+            rank=rank_empty, meta={"kind": "AbsoluteCategorical (a category named '')"})
         d_comb = pa.CombinedCategoricalDissimilarity(alpha=1, beta=2, delta_empty=de)
         add("comb", "abs", d_comb, grid_pairs(names3, sample=80), de, 1, 2, rank=rank3, meta={"kind": "Combined(default categorical)"})
         add("comb", "abs", d_comb, grid_pairs(other3, sample=80), de, 1, 2, rank=rank_other,
